@@ -15,6 +15,7 @@ import (
 	"github.com/timshannon/badgerhold"
 
 	"github.com/dtn7/dtn7-go/pkg/bpv7"
+	"github.com/dtn7/dtn7-go/pkg/verifhook"
 )
 
 const (
@@ -80,6 +81,7 @@ func (s *Store) Push(b bpv7.Bundle) error {
 		if err := bi.Parts[0].storeBundle(b); err != nil {
 			return err
 		}
+		verifhook.At("store.push.insert")
 
 		return s.bh.Insert(bi.Id, bi)
 	} else if bi.Fragmented {
@@ -113,6 +115,7 @@ func (s *Store) Push(b bpv7.Bundle) error {
 			if err := compPart.storeBundle(b); err != nil {
 				return err
 			}
+			verifhook.At("store.push.update")
 
 			biStore.Parts = append(biStore.Parts, compPart)
 			return s.bh.Update(biStore.Id, biStore)
@@ -150,7 +153,9 @@ func (s *Store) Delete(bid bpv7.BundleID) error {
 					"error":  err,
 				}).Warn("Failed to delete BundlePart")
 			}
+			verifhook.At("store.delete.part")
 		}
+		verifhook.At("store.delete.index")
 
 		return s.bh.Delete(bi.Id, BundleItem{})
 	}
